@@ -95,6 +95,26 @@ pub fn predicate(id: &str, v: &Violation) -> bool {
                 && sig_s(v, "location").map(|l| l.starts_with("src/meet_pass/est_times/mod.rs")).unwrap_or(false)
                 && sig_s(v, "message").map(|m| m.contains("est_time_prev.idx_next == est_idx")).unwrap_or(false)
         }
+        // bincode is not self-describing: a field that `skip_serializing_if` left out on output shifts every
+        // later byte. Decidable from the yaml rendering: a known skippable key is absent.
+        "C17-bincode-cannot-carry-skipped-fields" => {
+            v.monitor == "roundtrip"
+                && v.clause == "object can be read back"
+                && sig_s(v, "format") == Some("bin")
+                && sig_bool(v, "serde_skipped_a_known_skippable_field") == Some(true)
+                && !v.detail.contains("deserialize_any")
+        }
+        // Location.is_front_end is read through serde-this-or-that (deserialize_any), which bincode refuses
+        "C17-bincode-cannot-read-location" => {
+            v.monitor == "roundtrip" && v.clause == "object can be read back" && sig_s(v, "format") == Some("bin") && v.detail.contains("deserialize_any")
+        }
+        // JSON has no literal for infinity / NaN: serde_json writes null, which does not read back as f64
+        "C17-json-cannot-carry-nonfinite-floats" => {
+            v.monitor == "roundtrip"
+                && v.clause == "object can be read back"
+                && sig_s(v, "format") == Some("json")
+                && sig_bool(v, "value_has_nonfinite_float") == Some(true)
+        }
         _ => {
             let _ = (sig_bool(v, ""),);
             false
